@@ -10,6 +10,7 @@ import (
 	"math/rand"
 	"net/http"
 	"net/http/httptest"
+	"net/url"
 	"os"
 	"os/exec"
 	"sort"
@@ -152,6 +153,29 @@ func TestTransferReplay(t *testing.T) {
 		km, err := NewKeyMap(seed+int64(bi), false, cfg.Keys)
 		mustNoErr(err, "keymap")
 
+		// real cache names: plain, or names that need URL escaping (one pair differs only in '+' versus ' ')
+		styles := []map[string]string{
+			nil,
+			{"a": "orders+eu", "b": "orders eu", "c": "users&roles=1"},
+			{"a": "a/b?c", "b": "ü ñ%41", "c": "c#frag;x"},
+		}
+		rn := func(n string) string {
+			if r, ok := styles[bi%3][n]; ok {
+				return r
+			}
+
+			return n
+		}
+		mn := func(real string) string {
+			for m, r := range styles[bi%3] {
+				if r == real {
+					return m
+				}
+			}
+
+			return real
+		}
+
 		expT, impT := &cache.HTTPTransfer{}, &cache.HTTPTransfer{}
 		if bi%2 == 0 {
 			expT.Logger, impT.Logger = sinkLogger{}, sinkLogger{}
@@ -161,13 +185,13 @@ func TestTransferReplay(t *testing.T) {
 		for _, n := range cfg.ExpNames {
 			ek, _ := xferKinds(allNames[n] + bi)
 			expC[n] = NewBackend(ek, cache.Config{Name: "e" + n})
-			expT.AddCache(n, wdr(expC[n]))
+			expT.AddCache(rn(n), wdr(expC[n]))
 		}
 
 		for _, n := range cfg.ImpNames {
 			_, ik := xferKinds(allNames[n] + bi)
 			impC[n] = NewBackend(ik, cache.Config{Name: "i" + n})
-			impT.AddCache(n, wdr(impC[n]))
+			impT.AddCache(rn(n), wdr(impC[n]))
 		}
 
 		contents := func(m map[string]Backend) map[string]map[string]string {
@@ -193,6 +217,8 @@ func TestTransferReplay(t *testing.T) {
 
 		var trace []map[string]interface{}
 
+		nImports := 0
+
 		for _, op := range b {
 			jl := [][3]string{}
 
@@ -204,7 +230,7 @@ func TestTransferReplay(t *testing.T) {
 			case "ExportJSONL":
 				u := "http://exporter.test/jsonl"
 				if op.N != "" {
-					u += "?name=" + op.N
+					u += "?name=" + url.QueryEscape(rn(op.N))
 				}
 
 				rec := httptest.NewRecorder()
@@ -248,6 +274,7 @@ func TestTransferReplay(t *testing.T) {
 						}
 
 						val := decAny(row.Value)
+						row.Name = mn(row.Name)
 						if be, ok := expC[row.Name]; ok && be.Kind() == "ShardedMapOf" {
 							val = decStr(fmt.Sprint(row.Value))
 						}
@@ -258,7 +285,16 @@ func TestTransferReplay(t *testing.T) {
 			case "Import":
 				var rtlog []string
 
-				impT.Transport = &xferRT{h: expT.Export(), mode: op.Mode, who: op.Who, frac: rng.Float64(), log: &rtlog}
+				// a type registered between two imports through the SAME transfer object: exporter and importer live in
+				// this process, both hashes change together, the import must still work
+				if bi%4 == 1 && nImports > 0 && os.Getenv("VERIF_NOGOBREG") == "" && nextExtra < len(xferExtraTypes) {
+					cache.GobRegister(xferExtraTypes[nextExtra])
+					nextExtra++
+				}
+
+				nImports++
+
+				impT.Transport = &xferRT{h: expT.Export(), mode: op.Mode, who: rn(op.Who), frac: rng.Float64(), log: &rtlog}
 				if err := impT.Import(context.Background(), "http://exporter.test/dump"); err != nil {
 					op.Mode = "error:" + err.Error()
 				}
@@ -272,6 +308,27 @@ func TestTransferReplay(t *testing.T) {
 		res.Steps += len(b)
 	}
 }
+
+type (
+	xferExtra1  struct{ A int }
+	xferExtra2  struct{ B []string }
+	xferExtra3  struct{ C map[string]int }
+	xferExtra4  struct{ D *xferExtra1 }
+	xferExtra5  struct{ E [3]byte }
+	xferExtra6  struct{ F float64 }
+	xferExtra7  struct{ G uint16 }
+	xferExtra8  struct{ H []xferExtra2 }
+	xferExtra9  struct{ I bool }
+	xferExtra10 struct{ J complex128 }
+	xferExtra11 struct{ K map[int]string }
+	xferExtra12 struct{ L string }
+)
+
+var (
+	xferExtraTypes = []interface{}{xferExtra1{}, xferExtra2{}, xferExtra3{}, xferExtra4{}, xferExtra5{}, xferExtra6{},
+		xferExtra7{}, xferExtra8{}, xferExtra9{}, xferExtra10{}, xferExtra11{}, xferExtra12{}}
+	nextExtra int
+)
 
 // ---- types hash --------------------------------------------------------------------------------------------
 
